@@ -78,9 +78,12 @@ FUT0 = 200                            # logical future mtimes are FUT0 .. FUT0+1
 NOW0 = 20                             # logical value of the kernel stamp of operation 0 (small: nat literals are unary)
 TOPS = [0, 1, 2]
 DIRS = [0, 1, 2, 3, 4]                 # directory ids; nesting (= parentc in the Coq cases): 2 in 0, 3 in 2, 4 in 1
-DIRPATH = {0: "d0", 1: "d1", 2: "d0/s0", 3: "d0/s0/t0", 4: "d1/s0"}
+# names are the harness's choice (the model knows ids only): one hidden nested directory and, inside directories,
+# one dot-file, because directory walkers (glob, fnmatch-based filters) commonly skip names that start with "."
+DIRPATH = {0: "d0", 1: "d1", 2: "d0/s0", 3: "d0/s0/t0", 4: "d1/.s0"}
 DIRID = {v: k for k, v in DIRPATH.items()}
 SUBS = [(d, n) for d in DIRS for n in (0, 1)]
+SUBNAME = {0: "f0", 1: ".f1"}              # file n inside a directory
 CONTENTS = ["aaaa", "bbbb", "cccc", "dd", "eeeeeeee"]
 IMPORTS = ["Model.FileHash", "Spec.FileHash"]
 
@@ -264,7 +267,7 @@ class Exec:
 
     # ---- naming
     def rp(self, p):
-        return os.path.join(self.fs, "f%d" % p[1]) if p[0] == "top" else os.path.join(self.rd(p[1]), "f%d" % p[2])
+        return os.path.join(self.fs, "f%d" % p[1]) if p[0] == "top" else os.path.join(self.rd(p[1]), SUBNAME[p[2]])
 
     def rd(self, d):
         return os.path.join(self.fs, DIRPATH[d])
@@ -272,11 +275,10 @@ class Exec:
     def unpath(self, s):
         rel = os.path.relpath(s, self.fs)
         d, base = os.path.dirname(rel), os.path.basename(rel)
-        if base[:1] == "f" and base[1:].isdigit():
-            if d == "":
-                return ("top", int(base[1:]))
-            if d in DIRID:
-                return ("sub", DIRID[d], int(base[1:]))
+        if d == "" and base[:1] == "f" and base[1:].isdigit():
+            return ("top", int(base[1:]))
+        if d in DIRID and base in SUBNAME.values():
+            return ("sub", DIRID[d], int(base.lstrip(".")[1:]))
         raise ModelGap("path outside the universe: %s" % s)
 
     def rel(self, tgt, path):
